@@ -341,7 +341,7 @@ def solve_text(text, nparts, timeout_s, expect_sat=False, use_cvc5=True, both=Fa
         # 1: E-matching, short; 2: goal-directed hypothesis subset (proof only); 3: MBQI (counter-models);
         # 4: E-matching, full budget
         stages = [(int(min(timeout_s, 2) * 1000), False, "z3", text),
-                  (int(min(timeout_s, 6) * 1000), False, "z3-relevant-hyps", reduced_text),
+                  (int(timeout_s * 1000), False, "z3-relevant-hyps", reduced_text),
                   (int(timeout_s * 1000), True, "z3-mbqi", text),
                   # the last resort gets three times the budget: an obligation that needs it is the kind whose verdict would
                   # otherwise flip when all cores are busy
